@@ -194,3 +194,44 @@ def reason_call(prog, f, i):
     if not gs:
         return None
     return n, prog.funcs[n['callee']['usr']], gs
+
+
+_ccache = {}
+
+
+def count_helper(prog, usr):
+    """a file-local / private helper  H(const std::vector<T>& v)  that returns the number of elements announced by v:
+    0 when v is empty, otherwise the product of its entries (std::accumulate from 1 with a multiplying operation, or the
+    running-product loop).  -> index of the vector parameter, or None"""
+    key = (id(prog), usr)
+    if key in _ccache:
+        return _ccache[key]
+    _ccache[key] = None
+    f = prog.funcs.get(usr)
+    if f is None or f.implicit or f.body is None or len(f.params) != 1 or 'std::vector<' not in f.params[0]['type']:
+        return None
+    if not (f.rec.get('internal') or '(anonymous namespace)' in f.qname or f.rec.get('access') in ('private', 'protected')):
+        return None
+    if f.rec.get('ret') in ('void',):
+        return None
+    R = Renderer(f)
+    body = f.nodes[f.body]
+    empty_zero = False
+    prod = False
+    for c in body['ch']:
+        n = f.nodes[c]
+        if n['k'] == 'IfStmt' and 'else' not in n and R.render(n['cond']).replace('(bool)', '') in ('arg0.empty()', '(arg0.size == 0)', '!(arg0.size > 0)', '(0 == arg0.size)', '!(arg0.size != 0)'):
+            rs = [f.nodes[x] for x in sorted(set([n['then']] + list(f.descendants(n['then'])))) if f.nodes[x]['k'] == 'ReturnStmt']
+            if len(rs) == 1 and rs[0].get('ch') and str(f.nodes[f.strip(rs[0]['ch'][0], 'all')].get('cv')) == '0':
+                empty_zero = True
+    for c in f.calls():
+        if c['callee'].get('qname') == 'std::accumulate' and len(f.call_args(c)) == 4:
+            a = [R.render(x).replace(' ', '') for x in f.call_args(c)]
+            ini = f.nodes[f.strip(f.call_args(c)[2], 'all')]
+            op = f.nodes[f.strip(f.call_args(c)[3], 'all')]
+            mult = 'multiplies' in a[3] or any(f.nodes[x]['k'] == 'BinaryOperator' and f.nodes[x].get('op') == '*' for x in f.descendants(f.call_args(c)[3]))
+            if a[0] == 'arg0.begin()' and a[1] == 'arg0.end()' and str(ini.get('cv')) == '1' and mult:
+                prod = True
+    if empty_zero and prod:
+        _ccache[key] = 0
+    return _ccache[key]
